@@ -331,6 +331,162 @@ def search(ctx, S, M):
     return found
 
 
+# ---- K: generated notification graph <-> running code (which caches really refill after which mutator) -------------
+PARAM_NODE = {
+    'plasma.b_field': ['Plasma.b_field.set'], 'plasma.electron_distribution': ['Plasma.electron_distribution.set'],
+    'plasma.composition': ['Plasma.composition.set'], 'plasma.composition.add': ['Composition.add'],
+    'plasma.composition.set': ['Composition.set'], 'plasma.atomic_data': ['Plasma.atomic_data.set'],
+    'plasma.geometry': ['Plasma.geometry.set'], 'plasma.geometry_transform': ['Plasma.geometry_transform.set'],
+    'plasma.integrator': ['Plasma.integrator.set'], 'plasma.models': ['Plasma.models.set'],
+    'plasma.models.add': ['plasma.ModelManager.add'], 'plasma.models.set': ['plasma.ModelManager.set'],
+    'plasma.transform': ['scenegraph:Plasma'], 'plasma.parent': ['scenegraph:Plasma'],
+    'ancestor.transform': ['scenegraph:Plasma', 'scenegraph:Beam', 'scenegraph:Laser'],
+    'beam.energy': ['Beam.energy.set'], 'beam.power': ['Beam.power.set'], 'beam.temperature': ['Beam.temperature.set'],
+    'beam.sigma': ['Beam.sigma.set'], 'beam.length': ['Beam.length.set'], 'beam.divergence_x': ['Beam.divergence_x.set'],
+    'beam.divergence_y': ['Beam.divergence_y.set'], 'beam.element': ['Beam.element.set'],
+    'beam.atomic_data': ['Beam.atomic_data.set'], 'beam.plasma': ['Beam.plasma.set'], 'beam.attenuator': ['Beam.attenuator.set'],
+    'beam.attenuator.step': ['SingleRayAttenuator.step.set'], 'beam.attenuator.clamp_sigma': ['SingleRayAttenuator.clamp_sigma.set'],
+    'beam.models': ['Beam.models.set'], 'beam.models.add': ['beam.ModelManager.add'], 'beam.integrator': ['Beam.integrator.set'],
+    'beam.transform': ['scenegraph:Beam'], 'beam.parent': ['scenegraph:Beam'],
+    'laser.importance': ['Laser.importance.set'], 'laser.laser_spectrum': ['Laser.laser_spectrum.set'],
+    'laser.laser_profile': ['Laser.laser_profile.set'], 'laser.plasma': ['Laser.plasma.set'], 'laser.models': ['Laser.models.set'],
+    'laser.integrator': ['Laser.integrator.set'], 'laser.transform': ['scenegraph:Laser'], 'laser.parent': ['scenegraph:Laser'],
+    'laser.profile.laser_length': ['UniformEnergyDensity.laser_length.set'],
+    'laser.profile.laser_radius': ['UniformEnergyDensity.laser_radius.set'],
+    'laser.profile.energy_density': ['UniformEnergyDensity.energy_density.set'],
+}
+ACCESSOR_CACHE = {'exc': 'cache:Models(ExcitationLine)', 'rec': 'cache:Models(RecombinationLine)', 'tcx': 'cache:Models(ThermalCXLine)',
+                  'lrp': 'cache:Models(TotalRadiatedPower)', 'gaunt': 'cache:Models(Bremsstrahlung)', 'bcx': 'cache:Models(BeamCXLine)',
+                  'bem': 'cache:Models(BeamEmissionLine)', 'stop': 'cache:Attenuation'}
+# mutators after which some model kinds are no longer attached (so their caches cannot be seen to refill)
+MODEL_SET_CHANGERS = ('plasma.models', 'plasma.models.set', 'plasma.models.add', 'beam.models', 'beam.models.add', 'laser.models')
+
+
+def _idents(L):
+    d = {}
+    d['cache:PlasmaMaterial'] = [id(c.material) for c in L.plasma.children]
+    d['cache:BeamMaterial'] = [id(c.material) for c in L.beam.children]
+    d['cache:BeamGeometry'] = [id(c) for c in L.beam.children]
+    d['cache:LaserGeometry'] = [id(c) for c in L.laser.get_geometry()]
+    d['cache:LaserMaterial'] = [id(c.material) for c in L.laser.get_geometry()]
+    return d
+
+
+def refill_correspondence(ctx, S, M):
+    names = [n for n in sorted(M) if n in PARAM_NODE]
+    lines = []
+    for n in names:
+        for node in PARAM_NODE[n]:
+            lines.append('known ' + node)
+            lines.append('clears ' + node)
+    outs = ctx.driver(lines)
+    pred = {}
+    k = 0
+    for n in names:
+        acc = set()
+        for node in PARAM_NODE[n]:
+            if outs[k] != '1':
+                ctx.broke('correspondence', 'C01 graph node', dict(mutator=n, node=node, detail='mutator node not found in the generated notification graph'))
+            acc |= set(outs[k + 1].split())
+            k += 2
+        pred[n] = acc
+    for n in names:
+        gen, act, upd = M[n]
+        cfg = copy.deepcopy(BASE)
+        L = S.build(cfg)
+        st, _ = S.observe(L)
+        if st != 'ok':
+            ctx.broke('correspondence', 'C01 base scene', dict(detail='base scene does not render: %s' % st))
+            return
+        keep = [list(L.plasma.children), list(L.beam.children), list(L.laser.get_geometry()),
+                [c.material for c in L.plasma.children + L.beam.children + L.laser.get_geometry()]]  # keep ids alive
+        before = _idents(L)
+        for d in L.data.values():
+            d.calls.clear()
+        v = gen(ctx.rng, cfg)
+        if v is None and n not in ('beam.plasma', 'laser.plasma'):
+            continue
+        try:
+            act(L, copy.deepcopy(v))
+        except Exception as e:  # noqa  (S reports raising mutators)
+            continue
+        st, _ = S.observe(L)
+        after = _idents(L)
+        observed = set()
+        for d in L.data.values():
+            for c in d.calls:
+                if c[0] in ACCESSOR_CACHE:
+                    observed.add(ACCESSOR_CACHE[c[0]])
+        for c in before:
+            if before[c] != after[c] or not after[c]:
+                observed.add(c)
+        ctx.traces += 1
+        ctx.count('refill-check')
+        missing = pred[n] - observed          # model says cleared, code did not refill: model over-approximates (unsound)
+        extra = observed - pred[n]            # code refilled, graph has no path: translator misses an edge
+        if n in MODEL_SET_CHANGERS:
+            missing = {c for c in missing if not c.startswith('cache:Models(')}
+        if st != 'ok':
+            ctx.count('refill-check-scene-invalid-after:' + n)
+            missing = set()
+        if missing:
+            ctx.disagreements += 1
+            ctx.broke('correspondence', 'C01 refill ' + n, dict(mutator=n, predicted_cleared=sorted(pred[n]), observed_refilled=sorted(observed),
+                                                                detail='graph claims invalidation the running code does not perform: %s' % sorted(missing)))
+        if extra:
+            ctx.count('refill-not-in-graph:' + n)
+            ctx.extra.setdefault('refills_not_in_graph', {})[n] = sorted(extra)
+        del keep
+
+
+# ---- K: Notifier model <-> cherab.core.utility.notify.Notifier ----------------------------------------------------------
+def notifier_correspondence(ctx):
+    import gc
+    from cherab.core.utility import Notifier
+    rng = ctx.rng
+    lines, expected = [], []
+    for _ in range(ctx.n(150, 3000)):
+        log = []
+
+        class Obj:
+            def __init__(self, i): self.i = i
+            def m1(self): log.append('%d.1' % self.i)
+            def m2(self): log.append('%d.2' % self.i)
+            def m3(self): log.append('%d.3' % self.i)
+        objs = {i: Obj(i) for i in range(1, 6)}
+        nt = Notifier()
+        ops, outs = [], []
+        for _k in range(rng.randint(1, 14)):
+            r = rng.random()
+            liveids = sorted(objs)
+            if r < 0.45 and liveids:
+                i, m = rng.choice(liveids), rng.randint(1, 3)
+                nt.add(getattr(objs[i], 'm%d' % m)); ops.append('a%d.%d' % (i, m))
+            elif r < 0.6 and liveids:
+                i, m = rng.choice(liveids), rng.randint(1, 3)
+                nt.remove(getattr(objs[i], 'm%d' % m)); ops.append('r%d.%d' % (i, m))
+            elif r < 0.72 and liveids:
+                i = rng.choice(liveids)
+                del objs[i]; gc.collect(); ops.append('k%d' % i)
+            else:
+                del log[:]
+                nt.notify()
+                outs.append('[' + ','.join(log) + ']'); ops.append('n')
+        del log[:]
+        nt.notify(); outs.append('[' + ','.join(log) + ']'); ops.append('n')
+        lines.append('notifier ' + ' '.join(ops))
+        expected.append(' '.join(outs))
+    got = ctx.driver(lines)
+    for l, e, g in zip(lines, expected, got):
+        ctx.traces += 1
+        ctx.case(key=l if len(l) < 60 else None)
+        if e != g:
+            ctx.disagreements += 1
+            ctx.broke('correspondence', 'C01 Notifier', dict(line=l, implementation=e, model=g))
+            # property-level oracle: every live registered callback exactly once, in registration order
+            break
+
+
 def _detuple(x):
     if isinstance(x, list):
         return tuple(_detuple(y) for y in x)
@@ -348,18 +504,13 @@ def run(ctx):
     ctx.trusted += ['hand-written dependency table deps (which observation reads which parameter), validated by perturbation at run time',
                     'raysect scene graph, Ray.trace, NumericalIntegrator']
     ctx.assumptions += ['single-threaded rendering; concurrent render engines are outside the model']
-    ok = True
-    try:
-        from harness.translators import notify_edges
-        notify_edges.generate(ctx)
-        mods = ['Cherab.Props.C01', 'Cherab.Props.C01Table']
-    except ImportError:
-        mods = ['Cherab.Props.C01']
-    if os.path.exists(os.path.join(VERIF, 'lean', 'Cherab', 'Audit', 'C01.lean')):
-        ctx.lean_check(mods, 'Cherab/Audit/C01.lean')
+    from harness.translators import notify_edges
+    notify_edges.generate(ctx)
+    ctx.lean_check(['Cherab.Props.C01', 'Cherab.Props.C01Table'], 'Cherab/Audit/C01.lean')
     M = mutators(S)
+    refill_correspondence(ctx, S, M)
+    notifier_correspondence(ctx)
     search(ctx, S, M)
-    ctx.traces = ctx.evaluations
 
 
 def replay(ctx, path):
